@@ -153,6 +153,7 @@ func (u *controlUnit) handleRunner(ctx *risc.Context, cycle int, runner *risc.In
 		}
 		log.Infoi(ctx, "CU", runner.Runner.InstructionType(), runner.Pc, "forward runner on %s (source %d)", register, previousRunner.Pc/4)
 		u.forwarding++
+		ctx.VerifProbe(risc.VerifProbeForward)
 		return true, true
 	}
 
@@ -162,6 +163,7 @@ func (u *controlUnit) handleRunner(ctx *risc.Context, cycle int, runner *risc.In
 			return false, true
 		}
 		log.Infoi(ctx, "CU", runner.Runner.InstructionType(), runner.Pc, "renaming")
+		ctx.VerifProbe(risc.VerifProbeRename)
 		return true, false
 	}
 
